@@ -202,6 +202,39 @@ pub fn boundary_oracle<E: Engine>(_ctx: &RunCtx, spec: &BoundarySpec, log: &mut 
             }
         }
     }
+    // a promise that does not fit in the bit length must be refused EVEN IF the relation holds: the reference prover proves
+    // value' = 2^bits + small under promise 2^bits at position j (value' - promise fits), the other positions keep
+    // promises that do fit
+    if cfg.bits < 64 && cfg.nm() > 1 {
+        let mut ps = PubStatement::<E>::of(&t);
+        let big = (1u64 << cfg.bits) + (v & crate::gen::mask_of(cfg.bits));
+        let mut vals = t.values.clone();
+        vals[j] = big;
+        ps.promises[j] = Some(1u64 << cfg.bits);
+        for (i, p) in ps.promises.iter_mut().enumerate() {
+            if i != j && p.is_none() && vals[i] >= 1 {
+                *p = Some(1);
+            }
+        }
+        ps.commitments[j] = crate::refimpl::Stmt::<E::P>::commit(&ps.h, &ps.g, &curve25519_dalek::scalar::Scalar::from(big), &t.blindings[j]);
+        let w = RefWitness {
+            values: vals,
+            blindings: t.blindings.clone(),
+        };
+        let pf = ref_prove(&mut t.transcript(), &ps.ref_stmt(), &w, None, &mut chacha(spec.base.bulk ^ 9), Cheat::Honest, 0);
+        if let Ok(st) = ps.statement(None) {
+            if let Ok(lp) = guarded(|| tari_bulletproofs_plus::range_proof::RangeProof::<E::P>::from_bytes(&pf.encode()))? {
+                for act in [VerifyAction::VerifyOnly, VerifyAction::RecoverAndVerify] {
+                    if guarded(|| E::verify(&mut [ps.ctx.transcript()], &[st.clone()], &[lp.clone()], act))?.is_ok() {
+                        return Err(format!(
+                            "verifier ACCEPTED promise 2^{} at position {} of {} (it does not fit in the bit length), next to promises that fit",
+                            cfg.bits, j, cfg.m
+                        ));
+                    }
+                }
+            }
+        }
+    }
     log.label(format!("engine={}", E::NAME));
     log.label(format!("boundary:position={}", if j == 0 { "0" } else { ">=1" }));
     log.labels(t.classes());
@@ -259,7 +292,7 @@ pub fn def() -> PropertyDef {
                verified under a vector differing in one generated position j by {0, None, p+-1, v, v+1, 2^bits-1, 2^bits, u64::MAX, uniform}, in \
                VerifyOnly and RecoverAndVerify; oracle: Ok <=> value-wise equal (None == 0), and any promise >= 2^bits is refused. (2) prover \
                boundary at each position of an aggregate with all other positions valid: promise == value proves and verifies, promise == value+1 \
-               is refused, and the reference prover's proof of value - promise = -1 is rejected. (3) engine F garbage proofs with a nonzero promise \
+               is refused, the reference prover's proof of value - promise = -1 is rejected, and a promise of 2^bits is refused even when the reference prover supplies a proof for which the relation holds (value' = 2^bits + small) and the other promises of the aggregate fit. (3) engine F garbage proofs with a nonzero promise \
                at EVERY position: the h-coordinate (and every other coordinate) of the verifier's final equation equals weight x the reference \
                relation, whose only promise-dependent term is e^2 y^(nm+1) sum_j z^(2(j+1)) p_j. Non-trivial = every substitution / boundary / \
                garbage case; distinct by (substitution kind, original class, equality, position class, bits, m, case)."
